@@ -84,6 +84,17 @@ def _history(tr, build_direct, build_entry, den_of, deterministic=True, on_pre_d
         _FAULT["at"] = None
         if on_pre_done:
             on_pre_done()
+    fr = tr["case"].get("pre_abort")
+    if fr is not None:
+        # history: an earlier construction from the same inputs was abandoned part-way at an arbitrary line (CrashPoints.tla)
+        from ..crash import abort_frac
+        try:
+            with watchdog(60):
+                tr["pre_abort_outcome"] = abort_frac(build_direct, build_direct, fr)
+        except Timeout:
+            raise
+        if on_pre_done:
+            on_pre_done()
     try:
         with watchdog(30):
             obj = build_direct()
@@ -131,6 +142,15 @@ def run_manual(case):
     tr = _base("manual", case)
     tr["d"] = [{"key": list(k), "w": w} for k, w in case["d"]]
     p = {JN.JDD: d, JN.MOTIF_SIZES: case["sizes"]}
+    if case.get("shared_params"):
+        # one parameter dictionary for a whole pipeline: it also carries the keys other components read (their own JDD entry,
+        # edge names, a network); the manual loader returns the dictionary given under ITS key
+        from gcmpy import ToolsNames as TN, GCMAlgorithmNames as GN
+        p[TN.JDD] = {(9,) * len(case["sizes"]): 1.0}
+        p[TN.EDGE_NAMES] = ["x"] * len(case["sizes"])
+        p[GN.MOTIF_SIZES] = [7] * len(case["sizes"])
+        p[JN.JDD] = d
+        p[JN.MOTIF_SIZES] = case["sizes"]
     _history(tr, lambda: gcmpy.JointDegreeManual(dict(p)),
              lambda: gcmpy.JointDegreeDistribution.load_joint_degree({**p, JN.JOINT_DEGREE_TYPE: "manual"}),
              lambda key: D)
